@@ -20,6 +20,7 @@ void scen_once(hx::Desc& d) {
     bool callers_in_tasks = sim::draw_bool("callers_in_tasks");
     d.add(hx::fmt("collaborative_call_once callers=%d throw_mask=%#x inner_parallel_for=%d points=%d arena=%d callers_in_tasks=%d", ncallers, throw_mask, inner_n, pts, conc, (int)callers_in_tasks));
     d.publish();
+    sim::set_tag("call_once throw_mask=%#x callers=%d", throw_mask, ncallers);
     tbb::collaborative_once_flag* flag = new tbb::collaborative_once_flag;
     sim::tso_register(flag, sizeof(*flag));
     int attempts = 0, completions = 0, running = 0;
